@@ -6,6 +6,7 @@ package qadapt
 import (
 	"errors"
 	"fmt"
+	"time"
 
 	"github.com/pinealctx/neptune/queue/priq"
 	"github.com/pinealctx/neptune/queue/syncq"
@@ -52,6 +53,9 @@ type Q struct {
 	Kind string
 	// Add appends to a lane (only MQ has a control lane).
 	Add func(lane, v int) Outcome
+	// AddAnyway is Add through the queue's Add*Anyway entry point (retries while the lane is full, sleeping 1 µs in
+	// between: callers use it only where the lane is known not to be full). nil where the queue has none.
+	AddAnyway func(lane, v int) Outcome
 	// AddPrior puts v at the front of a lane, exempt from the bound.
 	AddPrior func(lane, v int) Outcome
 	// Pop is the blocking pop: pipe queues fail with closed once the queue is
@@ -118,8 +122,11 @@ func New(kind string, capReq, capCtrl int) *Q {
 	case KindQ:
 		q := pq.NewQ(pq.WithSize(capReq))
 		return &Q{Kind: kind,
-			Add:       func(_, v int) Outcome { return pipeOutcome(q.AddReq(v), pq.ErrClosed, pq.ErrReqQFull) },
-			AddPrior:  func(_, v int) Outcome { return pipeOutcome(q.AddPriorReq(v), pq.ErrClosed, pq.ErrReqQFull) },
+			Add:      func(_, v int) Outcome { return pipeOutcome(q.AddReq(v), pq.ErrClosed, pq.ErrReqQFull) },
+			AddPrior: func(_, v int) Outcome { return pipeOutcome(q.AddPriorReq(v), pq.ErrClosed, pq.ErrReqQFull) },
+			AddAnyway: func(_, v int) Outcome {
+				return pipeOutcome(q.AddReqAnyway(v, time.Microsecond), pq.ErrClosed, pq.ErrReqQFull)
+			},
 			Pop:       func() (int, bool, error) { x, err := q.Pop(); return pipePop(x, err, pq.ErrClosed) },
 			PopAnyway: func() (int, bool, error) { x, err := q.PopAnyway(); return pipePop(x, err, pq.ErrClosed) },
 			Close:     q.Close,
@@ -127,8 +134,11 @@ func New(kind string, capReq, capCtrl int) *Q {
 	case KindAsync:
 		q := pasync.NewQ(capReq)
 		return &Q{Kind: kind,
-			Add:       func(_, v int) Outcome { return pipeOutcome(q.Add(v), pasync.ErrClosed, pasync.ErrFull) },
-			AddPrior:  func(_, v int) Outcome { return pipeOutcome(q.AddPrior(v), pasync.ErrClosed, pasync.ErrFull) },
+			Add:      func(_, v int) Outcome { return pipeOutcome(q.Add(v), pasync.ErrClosed, pasync.ErrFull) },
+			AddPrior: func(_, v int) Outcome { return pipeOutcome(q.AddPrior(v), pasync.ErrClosed, pasync.ErrFull) },
+			AddAnyway: func(_, v int) Outcome {
+				return pipeOutcome(q.AddAnyway(v, time.Microsecond), pasync.ErrClosed, pasync.ErrFull)
+			},
 			Pop:       func() (int, bool, error) { x, err := q.Pop(); return pipePop(x, err, pasync.ErrClosed) },
 			PopAnyway: func() (int, bool, error) { x, err := q.PopAnyway(); return pipePop(x, err, pasync.ErrClosed) },
 			Close:     q.Close,
@@ -137,8 +147,11 @@ func New(kind string, capReq, capCtrl int) *Q {
 	case KindMux:
 		q := pmux.NewQ(capReq)
 		return &Q{Kind: kind,
-			Add:       func(_, v int) Outcome { return pipeOutcome(q.AddReq(v), pmux.ErrClosed, pmux.ErrQFull) },
-			AddPrior:  func(_, v int) Outcome { return pipeOutcome(q.AddPriorReq(v), pmux.ErrClosed, pmux.ErrQFull) },
+			Add:      func(_, v int) Outcome { return pipeOutcome(q.AddReq(v), pmux.ErrClosed, pmux.ErrQFull) },
+			AddPrior: func(_, v int) Outcome { return pipeOutcome(q.AddPriorReq(v), pmux.ErrClosed, pmux.ErrQFull) },
+			AddAnyway: func(_, v int) Outcome {
+				return pipeOutcome(q.AddReqAnyway(v, time.Microsecond), pmux.ErrClosed, pmux.ErrQFull)
+			},
 			Pop:       func() (int, bool, error) { x, err := q.Pop(); return pipePop(x, err, pmux.ErrClosed) },
 			PopAnyway: func() (int, bool, error) { x, err := q.PopAnyway(); return pipePop(x, err, pmux.ErrClosed) },
 			Close:     q.Close,
@@ -152,6 +165,12 @@ func New(kind string, capReq, capCtrl int) *Q {
 					return pipeOutcome(q.AddCtrl(v), mq.ErrClosed, mq.ErrCtrlQFull)
 				}
 				return pipeOutcome(q.AddReq(v), mq.ErrClosed, mq.ErrReqQFull)
+			},
+			AddAnyway: func(lane, v int) Outcome {
+				if lane == LaneCtrl {
+					return pipeOutcome(q.AddCtrlAnyway(v, time.Microsecond), mq.ErrClosed, mq.ErrCtrlQFull)
+				}
+				return pipeOutcome(q.AddReqAnyway(v, time.Microsecond), mq.ErrClosed, mq.ErrReqQFull)
 			},
 			AddPrior: func(lane, v int) Outcome {
 				if lane == LaneCtrl {
